@@ -42,6 +42,7 @@ type PropConfig struct {
 	StandIns []StandIn   `json:"standins"`
 	ReplayCases map[string]string `json:"replay_cases"` // func key -> comma separated replay case names
 	Explanation string   `json:"explanation"`
+	EffArchs []string    `json:"eff_archs"`  // additional GOARCH values for which package sm4 is analysed
 	EffPkgs  []string    `json:"eff_pkgs"`   // packages whose functions get write-effect obligations (#eff contracts)
 	RingFuncs []string   `json:"ring_funcs"` // functions with #ring contracts (polynomial identities mod p)
 	CtRoots  []string    `json:"ct_roots"`   // functions with #ct contracts: roots of the secret-independence analysis
@@ -430,23 +431,36 @@ func cmdCheck(args []string) {
 		ctInfo = map[string]interface{}{"roots": pc.CtRoots, "obligations": nct, "discharged": okct, "functions_reached": len(an.funcs), "declassifications": decl, "notes": an.notes}
 	}
 	// write-effect contracts (#eff)
+	effArchs := []string{""}
 	if len(pc.EffPkgs) > 0 {
-		eng := engines[""]
+		effArchs = append(effArchs, pc.EffArchs...)
+	}
+	for _, earch := range effArchs {
+		if len(pc.EffPkgs) == 0 {
+			break
+		}
+		eng := engines[earch]
 		if eng == nil {
 			var err error
-			eng, err = NewEngine(*repo, "", "verif")
+			eng, err = NewEngine(*repo, earch, "verif")
 			if err != nil {
-				fmt.Printf("ERROR: cannot load %s: %v\n", *repo, err)
+				fmt.Printf("ERROR: cannot load %s for GOARCH=%s: %v\n", *repo, earch, err)
 				os.Exit(2)
 			}
-			if err := eng.LoadContracts(ContractFilesArch(*repo, "", filepath.Join(*vdir, "spec"))); err != nil {
+			if err := eng.LoadContracts(ContractFilesArch(*repo, earch, filepath.Join(*vdir, "spec"))); err != nil {
 				fmt.Println("ERROR: contracts:", err)
 				os.Exit(2)
 			}
-			engines[""] = eng
+			engines[earch] = eng
 		}
 		ea := NewEffAnalysis(eng)
 		ne, oke := 0, 0
+		effPkgs := pc.EffPkgs
+		apfx := ""
+		if earch != "" {
+			apfx = earch + ":"
+			effPkgs = []string{"sm4"} // only package sm4 has architecture-specific Go code
+		}
 		// every #eff contract must still bind
 		for key := range eng.contracts {
 			if strings.HasSuffix(key, "#eff") && !strings.HasPrefix(key, "type ") {
@@ -458,7 +472,8 @@ func cmdCheck(args []string) {
 				}
 			}
 		}
-		for _, o := range ea.Check(pc.EffPkgs) {
+		for _, o := range ea.Check(effPkgs) {
+			o.Name = apfx + o.Name
 			ne++
 			if o.OK {
 				oke++
@@ -480,7 +495,7 @@ func cmdCheck(args []string) {
 		total += ne
 		discharged += oke
 		solverCount["write-effect analysis (govc eff)"] += oke
-		extraFuncs = append(extraFuncs, fmt.Sprintf("every non-test function of packages %s (write-effect obligations)", strings.Join(pc.EffPkgs, ", ")))
+		extraFuncs = append(extraFuncs, fmt.Sprintf("every non-test function of packages %s%s (write-effect obligations)", strings.Join(effPkgs, ", "), map[bool]string{true: " built for " + earch, false: ""}[earch != ""]))
 	}
 	// ring-mode contracts: polynomial identities of straight-line field code
 	if len(pc.RingFuncs) > 0 {
